@@ -120,7 +120,12 @@ def run(ctx):
                    "replay applies CreateNode without the idmap.lookup skip (re-replay after a crash duplicates or fails)", c.loc(),
                    sample={"apply": c.loc(), "lookups": [l.loc() for l in lookups]})
 
-    # ---- clause 4 ---------------------------------------------------------
+    scanner_rule(ctx, "C02.4")
+
+
+def scanner_rule(ctx, rid):
+    """log scanners discard the pending records of an unfinished transaction at the next BeginTx (shared by C01, C02, C08)"""
+    F = ctx.facts
     # A crash inside commit leaves BeginTx + some records without CommitTx; later commits are appended behind them.
     # Every scanner that groups records into transactions must drop the pending records at the next BeginTx, otherwise
     # the aborted records are applied as part of the next committed transaction.
@@ -147,9 +152,9 @@ def run(ctx):
             for st in sb.blocks[x]["s"]:
                 if st[0] == "a" and st[1][0] in pend and not st[1][1]:
                     cleared = True
-        ctx.instance("C02.4", "%s: BeginTx arm resets the pending-record buffer=%s" % (i, cleared))
-        ctx.oblige(cleared, "C02.4", "%s:BeginTx-keeps-pending-records" % i,
+        ctx.instance(rid, "%s: BeginTx arm resets the pending-record buffer=%s" % (i, cleared))
+        ctx.oblige(cleared, rid, "%s:BeginTx-keeps-pending-records" % i,
                    "the BeginTx arm does not discard records buffered from an earlier transaction that never committed (a crash in the middle of a "
                    "commit): those records are replayed as part of the next committed transaction — recovery applies a non-prefix", sb.file,
                    sample={"scanner": i})
-    ctx.floor("C02.4", "log scanners that group records into transactions", scanners, 2)
+    ctx.floor(rid, "log scanners that group records into transactions", scanners, 2)
